@@ -104,6 +104,12 @@ impl<'a> World<'a> {
             self.run_due_pub();
             return;
         }
+        // with a small window the user keeps publishing into the silence: ids wrap
+        // onto publishes the broker never acknowledged (a parked publish must not
+        // delay the report)
+        if self.silent && self.cfg.limit == 3 && self.user_left > 0 {
+            self.user_request();
+        }
         // light traffic in either direction
         let n = self.ch.pick(3);
         for _ in 0..n {
